@@ -251,6 +251,19 @@ def prop_ops(case, ctx):
         for e in ev:
             ctx.check(abs(sh.prob(e) - p.prob(e)) <= 1e-10 * max(p.prob(e), 1e-3) + 1e-15, "C11.softmax.shift_invariant",
                       lambda: f"{e!r}: {sh.prob(e)} vs {p.prob(e)} shift {case['shift']}")
+        # scores of an exact number type (Fraction, int) shifted by an exactly representable huge constant: the differences
+        # - all that matters - are still exact in the caller's arithmetic
+        big = [F(10) ** 10, F(10) ** 17, -(F(10) ** 18)][len(ev) % 3]
+        exact = {e: F(w, case["p"]["den"]) for e, w in zip(ev, case["p"]["w"])}
+        shx = ctx.call("C11.softmax.raises", SoftmaxDistribution, {e: s + big for e, s in exact.items()})
+        ints = {e: int(w) + int(big) for e, w in zip(ev, case["p"]["w"])}
+        p_int = ctx.call("C11.softmax.raises", SoftmaxDistribution, {e: int(w) for e, w in zip(ev, case["p"]["w"])})
+        shi = ctx.call("C11.softmax.raises", SoftmaxDistribution, ints)
+        for e in ev:
+            ctx.check(abs(shx.prob(e) - p.prob(e)) <= 1e-10 * max(p.prob(e), 1e-3) + 1e-15, "C11.softmax.shift_invariant",
+                      lambda: f"{e!r}: Fraction scores shifted by {big}: {shx.prob(e)} vs {p.prob(e)}")
+            ctx.check(abs(shi.prob(e) - p_int.prob(e)) <= 1e-10 * max(p_int.prob(e), 1e-3) + 1e-15, "C11.softmax.shift_invariant",
+                      lambda: f"{e!r}: int scores shifted by {int(big)}: {shi.prob(e)} vs {p_int.prob(e)}")
     zero = any(x == 0 for x in rp.values())
     coll = len({proj(e) for e in rp}) < len(rp)
     mixed = case["p"]["kind"] != case["q"]["kind"]
